@@ -6,6 +6,7 @@ import (
 	"fmt"
 	"math/rand"
 	"runtime"
+	"sort"
 	"sync"
 	"time"
 
@@ -84,6 +85,7 @@ func baseConfig(s Spec, r *rand.Rand, o Opt) vnet.Config {
 	cfg.MaxSteps = 6000 + 1500*cfg.N
 	cfg.MaxClock = time.Duration(cfg.Heights) * 400 * cfg.TPB
 	cfg.K.SlowNode = -1
+	cfg.K.ResetDelayNode = -1
 	return cfg
 }
 
@@ -107,36 +109,72 @@ func Build(s Spec, mons ...vnet.Monitor) *Built {
 		cfg.K.Sync = true
 		cfg.K.PDup = 0.1
 		cfg.K.PNewTx = 0.02
+		cfg.K.NotifyAll = true // the application honours its subscription at once
 		switch r.Intn(3) {
 		case 1:
 			cfg.LatMin, cfg.LatMax = cfg.TPB/100, cfg.TPB/100
 		case 2:
 			cfg.LatMin, cfg.LatMax = 0, cfg.TPB/50
 		}
-		if r.Intn(3) == 0 && cfg.N > 1 {
-			cfg.K.SlowNode = r.Intn(cfg.N)
-			cfg.K.SlowExtra = cfg.TPB / 4
+		switch r.Intn(3) {
+		case 0:
+			if cfg.N > 1 {
+				cfg.K.SlowNode = r.Intn(cfg.N)
+				cfg.K.SlowExtra = cfg.TPB / 4
+			}
+		case 1:
+			// slow block persistence: the application calls Reset late, so traffic of the next height
+			// arrives before the height is entered and gets cached. One lagging node that the quorum
+			// does not need may lag by more than a block time; if every node is needed (N < 4) all
+			// nodes lag a little. Both stay inside the slack between the primary's TimePerBlock
+			// and the backups' 2 x TimePerBlock timers.
+			if cfg.N >= 4 {
+				cfg.K.ResetDelayNode = r.Intn(cfg.N)
+				cfg.K.ResetDelayMax = cfg.TPB * 13 / 10
+				cfg.LatMin, cfg.LatMax = 0, 0
+			} else {
+				cfg.K.ResetDelayMax = cfg.TPB * 3 / 10
+			}
 		}
-		if cfg.LatMax > 0 && cfg.BaseHeight == 0 {
+		if (cfg.LatMax > 0 || cfg.K.ResetDelayMax > 0 || cfg.K.SlowExtra > 0) && cfg.BaseHeight == 0 {
 			cfg.BaseHeight = 1 // see DESIGN: zero-duration timers at the very first height
 		}
 		initTx = r.Intn(8)
+	case "dyn":
+		cfg = baseConfig(s, r, Opt{Ns: []int{1, 2, 3, 4, 4, 5, 6, 7}, MinH: 4, MaxH: 6, Dyn: 2})
+		if r.Intn(5) == 0 {
+			cfg.MaxTPB = 0 // the "extension off" half
+		}
+		cfg.K.Sync = true
+		cfg.K.PDup = 0.05
+		cfg.K.NotifyAll = true
+		switch r.Intn(3) {
+		case 1:
+			cfg.LatMin, cfg.LatMax = cfg.TPB/100, cfg.TPB/100
+		case 2:
+			cfg.LatMin, cfg.LatMax = 0, cfg.TPB/50
+		}
+		if cfg.BaseHeight == 0 {
+			cfg.BaseHeight = 1
+		}
+		cfg.TxPerBlock = 1 + r.Intn(4)
+		initTx = []int{0, 0, 1, 3}[r.Intn(4)]
 	case "async-benign":
 		cfg = baseConfig(s, r, Opt{Dyn: 1})
 		cfg.K = vnet.Knobs{PDrop: 0.02, PDup: 0.08, PEarlyTimer: 0.01, PStaleTimer: 0.01, PAdvance: 0.02,
-			PDelayReset: 0.5, PNewTx: 0.02, PTxMissing: 0.2, PSupply: 0.15, PUnasked: 0.003, PSyncLedger: 0.002, PNotify: 0.05, SlowNode: -1}
+			PDelayReset: 0.5, PNewTx: 0.02, PTxMissing: 0.2, PSupply: 0.15, PUnasked: 0.003, PSyncLedger: 0.002, PNotify: 0.05, SlowNode: -1, ResetDelayNode: -1}
 		initTx = r.Intn(8)
 	case "byz":
 		cfg = baseConfig(s, r, Opt{Ns: []int{4, 4, 4, 5, 6, 7, 7, 10}})
 		cfg.K = vnet.Knobs{PDrop: 0.01, PDup: 0.05, PEarlyTimer: 0.01, PStaleTimer: 0.002, PAdvance: 0.02,
-			PDelayReset: 0.3, PNewTx: 0.02, PTxMissing: 0.1, PSupply: 0.15, PSyncLedger: 0.002, PAdv: 0.12, SlowNode: -1}
+			PDelayReset: 0.3, PNewTx: 0.02, PTxMissing: 0.1, PSupply: 0.15, PSyncLedger: 0.002, PAdv: 0.12, SlowNode: -1, ResetDelayNode: -1}
 		adv = true
 		initTx = r.Intn(8)
 	case "missing-tx":
 		cfg = baseConfig(s, r, Opt{Ns: []int{2, 3, 4, 4, 5, 7}})
 		cfg.TxPerBlock = 1 + r.Intn(5)
 		cfg.K = vnet.Knobs{PDup: 0.05, PEarlyTimer: 0.008, PAdvance: 0.01, PDelayReset: 0.3, PNewTx: 0.06, PTxMissing: 0.5,
-			PSupply: 0.1, PUnasked: 0.01, PSyncLedger: 0.002, SlowNode: -1}
+			PSupply: 0.1, PUnasked: 0.01, PSyncLedger: 0.002, SlowNode: -1, ResetDelayNode: -1}
 		initTx = 2 + r.Intn(8)
 	default:
 		panic("unknown profile " + s.Profile)
@@ -156,6 +194,16 @@ func Build(s Spec, mons ...vnet.Monitor) *Built {
 	}
 	for i := 0; i < initTx; i++ {
 		c.AddTx(false, cfg.K.PTxMissing)
+	}
+	if s.Profile == "dyn" {
+		// transactions appear never / before the minimum / at random instants of the extended wait
+		span := int64(cfg.Heights+1) * int64(max(cfg.MaxTPB, cfg.TPB))
+		var at []int64
+		for i := r.Intn(2 * cfg.Heights); i > 0; i-- {
+			at = append(at, r.Int63n(span))
+		}
+		sort.Slice(at, func(i, j int) bool { return at[i] < at[j] })
+		c.TxSchedule = at
 	}
 	return &Built{C: c, Hooks: hooks, Spec: s}
 }
